@@ -340,6 +340,96 @@ Proof.
   rewrite (IH _ Gt). cbn [fst snd app]. rewrite Nat.add_assoc. reflexivity.
 Qed.
 
+(* ---- a pass that starts in the middle of the file (the backwards search of last_meta_timestamp) ---- *)
+(* no continuation slot looks like a marker line (vacuous for payloads >= 4: there are none) *)
+Definition nm_sec (s:sect) : Prop := Forall nonmarker (Layout.sec_got p (fst s)).
+
+Lemma Forall_skipn' {A} (P:A -> Prop) n (l:list A) : Forall P l -> Forall P (skipn n l).
+Proof. revert l; induction n as [|n IH]; intros l H; [exact H|]. destruct l; [constructor|]. inversion H; subst. apply IH. assumption. Qed.
+
+Lemma scan_section_tail s a j : sec_ok p s -> nm_sec s -> 0 < a ->
+  meta_scan p j MN [] (skipn a (sslots s)) = ([], MN).
+Proof.
+  destruct s as [f ls]. intros ((pay & r & Els) & F & S) NM Ha. cbn [fst snd] in *. unfold sslots, nm_sec in *. cbn [fst snd] in *.
+  assert (BN : Forall nonmarker (map (fun y => enc_line (fst y - f) (snd y)) ls)).
+  { apply body_nonmarkers. eapply Forall_impl; [|exact F]. intros y (_ & H & _). exact H. }
+  assert (TAIL : Forall nonmarker (Layout.sec_got p f ++ map (fun y => enc_line (fst y - f) (snd y)) ls)).
+  { apply Forall_app. split; assumption. }
+  unfold Layout.sec_slots. cbn [app].
+  destruct a as [|[|a']]; [lia| |].
+  - cbn [skipn].
+    destruct (Layout.sec_got p f ++ map (fun y => enc_line (fst y - f) (snd y)) ls) as [|y rest] eqn:E.
+    + exfalso. subst ls. destruct (Layout.sec_got p f); discriminate.
+    + apply scan_after_any. exact TAIL.
+  - cbn [skipn]. apply scan_nonmarkers. apply Forall_skipn'. exact TAIL.
+Qed.
+
+Lemma ients_lower : forall ss i, Forall (fun x => i <= fst x) (ients i ss).
+Proof.
+  induction ss as [|s t IH]; intros i; cbn [ients]; constructor; [cbn; lia|].
+  eapply Forall_impl; [|apply IH]. intros x H. cbn beta in *. lia.
+Qed.
+Lemma filter_all {A} (f:A -> bool) l : Forall (fun x => f x = true) l -> filter f l = l.
+Proof. induction 1 as [|x l Hx _ IH]; cbn [filter]; [reflexivity|]. rewrite Hx, IH. reflexivity. Qed.
+
+(* scanning from slot a of the slots of good sections (absolute numbering): the sections that start at or after a *)
+Theorem scan_from : forall ss i a, good_secs p ss -> Forall nm_sec ss ->
+  meta_scan p (i + a) MN [] (skipn a (concat (map sslots ss))) = (filter (fun x => i + a <=? fst x) (ients i ss), MN).
+Proof.
+  induction ss as [|s t IH]; intros i a G NM; cbn [map concat ients].
+  - rewrite skipn_nil. reflexivity.
+  - cbn [good_secs] in G. destruct G as (Ok0 & Nx & Gt). inversion NM as [|? ? NM0 NMt]; subst.
+    assert (Gall : good_secs p (s :: t)) by (cbn [good_secs]; auto).
+    set (m := Layout.K p + length (snd s)).
+    assert (Lm : length (sslots s) = m) by apply sslots_count.
+    assert (Mpos : 1 <= m) by (unfold m, Layout.K; lia).
+    destruct (Nat.eq_dec a 0) as [->|Ha0].
+    + cbn [skipn]. rewrite Nat.add_0_r.
+      change (sslots s ++ concat (map sslots t)) with (concat (map sslots (s :: t))).
+      rewrite (scan_sections (s :: t) i Gall). cbn [ients]. f_equal. symmetry. apply filter_all.
+      pose proof (ients_lower (s :: t) i) as LW. cbn [ients] in LW.
+      eapply Forall_impl; [|exact LW]. intros x H. apply Nat.leb_le. exact H.
+    + cbn [filter fst]. replace (i + a <=? i) with false by (symmetry; apply Nat.leb_gt; lia).
+      destruct (Nat.lt_ge_cases a m) as [Lt|Ge].
+      * rewrite skipn_app. replace (a - length (sslots s)) with 0 by lia. cbn [skipn].
+        rewrite meta_scan_app, (scan_section_tail s a (i + a) Ok0 NM0 ltac:(lia)). cbn [fst snd app].
+        rewrite skipn_length, Lm. replace (i + a + (m - a)) with (i + m + 0) by lia.
+        pose proof (IH (i + m) 0 Gt NMt) as IH0. cbn [skipn] in IH0. rewrite IH0. cbn [fst snd].
+        fold m. replace (i + Layout.K p + length (snd s)) with (i + m) by (unfold m; lia).
+        f_equal. apply filter_ext_in. intros x Hx.
+        pose proof (ients_lower t (i + m)) as LW. rewrite Forall_forall in LW. specialize (LW x Hx). cbn beta in LW.
+        replace (i + m + 0 <=? fst x) with true by (symmetry; apply Nat.leb_le; lia).
+        symmetry. apply Nat.leb_le. lia.
+      * rewrite skipn_app, skipn_all2 by lia. rewrite app_nil_l, Lm.
+        replace (i + a) with (i + m + (a - m)) by lia. rewrite (IH (i + m) (a - m) Gt NMt).
+        replace (i + Layout.K p + length (snd s)) with (i + m) by (unfold m; lia). reflexivity.
+Qed.
+
+(* entries found after a point come from slots near or after that point *)
+Lemma found_idx_lower : forall ls i st, wf_mst p i st ->
+  Forall (fun x => i - mheld st <= fst x) (fst (meta_scan p i st [] ls)).
+Proof.
+  induction ls as [|x t IH]; intros i st W; cbn [meta_scan]; [constructor|].
+  destruct st as [|idx a|idx a b got]; cbn [wf_mst mheld] in *.
+  - destruct (Meta.is_marker x) eqn:M.
+    + eapply Forall_impl; [|apply (IH (S i) (M1 i x)); cbn [wf_mst]; split; [exact M|lia]]. intros y H. cbn [mheld] in H. cbn beta in *. lia.
+    + eapply Forall_impl; [|apply (IH (S i) MN I)]. intros y H. cbn [mheld] in H. cbn beta in *. lia.
+  - destruct W as [Ma Hi]. destruct (Meta.is_marker x) eqn:M.
+    + destruct (Meta.ncont p =? 0) eqn:C.
+      * rewrite meta_scan_acc. cbn [fst rev app]. constructor; [cbn [fst]; lia|].
+        eapply Forall_impl; [|apply (IH (S i) MN I)]. intros y H. cbn [mheld] in H. cbn beta in *. lia.
+      * apply Nat.eqb_neq in C. eapply Forall_impl; [|apply (IH (S i) (M2 idx a x []))].
+        -- intros y H. cbn [mheld length] in H. cbn beta in *. lia.
+        -- cbn [wf_mst length]. repeat split; try assumption; lia.
+    + eapply Forall_impl; [|apply (IH (S i) MN I)]. intros y H. cbn [mheld] in H. cbn beta in *. lia.
+  - destruct W as (Ma & Mb & Lg & Hi). destruct (length (got ++ [x]) =? Meta.ncont p) eqn:C.
+    + rewrite meta_scan_acc. cbn [fst rev app]. constructor; [cbn [fst]; lia|].
+      eapply Forall_impl; [|apply (IH (S i) MN I)]. intros y H. cbn [mheld] in H. cbn beta in *. lia.
+    + apply Nat.eqb_neq in C. eapply Forall_impl; [|apply (IH (S i) (M2 idx a b (got ++ [x])))].
+      * intros y H. cbn [mheld] in H. rewrite app_length in H. cbn [length] in H. cbn beta in *. lia.
+      * cbn [wf_mst]. rewrite app_length in *. cbn [length] in *. repeat split; try assumption; lia.
+Qed.
+
 (* the slots of an encoding *)
 Lemma encode_slots l : wf_series p l ->
   encode p l = concat (concat (map sslots (secs_of l)))
@@ -388,3 +478,39 @@ Proof.
   - constructor.
 Qed.
 End OnSections.
+
+(* ---- one window of the backwards search ---- *)
+Section Window.
+Variable p : nat.
+Notation L := (p + 2).
+
+Lemma mheld_lt i st : wf_mst p i st -> mheld st < Layout.K p.
+Proof.
+  destruct st as [|idx a|idx a b got]; cbn [wf_mst mheld]; intros W; unfold Layout.K; rewrite <- ncont_eq; lia.
+Qed.
+
+(* the sections whose start lies in the window and whose header ends inside it are all found, and nothing else *)
+Lemma window_found ss a b : good_secs p ss -> Forall (nm_sec p) ss ->
+  a <= b -> b <= length (concat (map (sslots p) ss)) ->
+  Forall (fun x => fst x + Layout.K p <= b) (filter (fun x => a <=? fst x) (ients p 0 ss)) ->
+  fst (meta_scan p a MN [] (firstn (b - a) (skipn a (concat (map (sslots p) ss)))))
+  = filter (fun x => a <=? fst x) (ients p 0 ss).
+Proof.
+  intros G NM Hab Hb HK.
+  set (S := concat (map (sslots p) ss)) in *.
+  pose proof (scan_from p ss 0 a G NM) as SF. cbn [Nat.add] in SF. fold S in SF.
+  rewrite <- (firstn_skipn (b - a) (skipn a S)) in SF. rewrite meta_scan_app in SF.
+  set (Wd := firstn (b - a) (skipn a S)) in *.
+  assert (LW : length Wd = b - a) by (unfold Wd; rewrite firstn_length, skipn_length; lia).
+  destruct (meta_scan p a MN [] Wd) as [f1 st1] eqn:E1. cbn [fst snd] in SF.
+  pose proof (meta_scan_inv p Wd a MN I) as INV. rewrite E1 in INV. destruct INV as [W1 _].
+  pose proof (found_idx_lower p (skipn (b - a) (skipn a S)) (a + length Wd) st1 W1) as LOW.
+  destruct (meta_scan p (a + length Wd) st1 [] (skipn (b - a) (skipn a S))) as [f2 st2]. cbn [fst snd] in *.
+  inversion SF as [[EF ES]]. cbn [fst].
+  destruct f2 as [|y f2']; [rewrite app_nil_r; reflexivity|].
+  exfalso. inversion LOW as [|? ? Hy _]; subst.
+  assert (INy : In y (filter (fun x => a <=? fst x) (ients p 0 ss))) by (rewrite <- EF; apply in_or_app; right; left; reflexivity).
+  rewrite Forall_forall in HK. specialize (HK y INy). pose proof (mheld_lt a st1) as ML.
+  pose proof (mheld_lt (a + length Wd) st1 W1). lia.
+Qed.
+End Window.
